@@ -39,6 +39,15 @@ def queue_spec(seed):
             v["schedule"] = "never"
             v["home_base"] = f"hb{j}"
             bases.append({"id": f"hb{j}", "lat": round(LAT0 + 0.01 + 0.001 * j, 6), "lon": LON0, "station": None, "stalls": 1})
+    if seed % 5 == 2:
+        # a depot plug closed to the built-in search for drivers on shift (on_shift_access false), used by an operator who
+        # sends vehicles there himself: two human drivers who are on shift all day wait in that queue with the others
+        stations[0]["plugs"][0]["on_shift"] = False
+        schedules = [{"id": "always", "start": 0, "end": 86399}]
+        for j, v in enumerate(vehicles[:2]):
+            v["schedule"] = "always"
+            v["home_base"] = f"hb{j}"
+            bases.append({"id": f"hb{j}", "lat": round(LAT0 + 0.01 + 0.001 * j, 6), "lon": LON0, "station": None, "stalls": 1})
     fleets = None
     if seed % 5 == 1:
         # a fleets file in which every other vehicle belongs to a fleet, the station to none (open to all): members and
@@ -82,7 +91,7 @@ def build_cases(tier, seed):
     for i in range(n):
         s = seed * 100000 + 18000 + i
         spec, steps = queue_spec(s)
-        ctrl = {"stack": ["ChargingFleetManager", {"benign_queue": {"p_leave": [0.0, 0.03, 0.08][i % 3], "p_abandon": [0.0, 0.02, 0.05][(i // 3) % 3], "p_resend": [0.0, 0.0, 0.3, 0.6][i % 4], "p_topup": 0.15 if s % 4 == 2 else 0.0}}]}
+        ctrl = {"stack": ["ChargingFleetManager", {"benign_queue": {"p_leave": [0.0, 0.03, 0.08][i % 3], "p_abandon": [0.0, 0.02, 0.05][(i // 3) % 3], "p_resend": [0.0, 0.0, 0.3, 0.6][i % 4], "p_topup": 0.15 if s % 4 == 2 else 0.0, "p_send": 0.5 if s % 5 == 2 else 0.0}}]}
         cases.append(trace_case("C18", i, s, {}, ctrl, steps, ["C18"], spec=spec, opts=({"cosim_ops": {"every": 12, "kinds": ["append_plugs"]}} if i % 4 == 3 else {})))
     return cases
 
